@@ -227,7 +227,7 @@ def run_lines(ctx, hexe, dexe, ops, label, nontrivial=lambda op, m: True):
         ndiff = sum(1 for a, b in zip(want, got) if a != b)
         ctx.violation("model and implementation disagree (%d lines) in stream %s: op %s impl=%r model=%r" % (
             ndiff, label, ops[d], want[d], got[d]),
-            {"stream": label, "op": ops[d], "driver_op": dops[d], "impl": want[d], "model": got[d]}, no_input=found)
+            {"stream": label, "op": ops[d], "driver_op": dops[d], "impl": want[d], "model": got[d]}, no_input=not found)
         found = True
     return found
 
@@ -342,6 +342,13 @@ def stratified(rng, total_bits, slices, width):
 
 # ------------------------------------------------------------------------------------------------ main
 def run(ctx):
+    try:
+        run_inner(ctx)
+    finally:
+        C19_util.cleanup()
+
+
+def run_inner(ctx):
     problems, consts = flow.proof_phase(ctx, "C19", probe="probe_C19.cc", probe_flags=PROBE_EXTRA, required=REQUIRED,
                                         drivers=["drv_C19"])
     dexe = lean.driver_path("drv_C19")
@@ -354,7 +361,7 @@ def run(ctx):
         ok, exe, lg = C19_util.build(v)
         if not ok:
             problems.append(lg)
-        builds[v] = exe
+        builds[v] = C19_util.private_copy(exe) if ok else None
     if not builds["asan"] or not builds["fast"] or not os.path.exists(dexe) or not consts:
         flow.report_obligation_failures(ctx, problems or ["harness / driver / probe unavailable"], False)
         return
@@ -413,6 +420,7 @@ def replay(ctx, path):
     if not ok:
         log(lg)
         return 2
+    hexe = C19_util.private_copy(hexe)
     op = body.get("op") or ("%s %d" % (body["type"], body["bits"]) if "bits" in body else None)
     if not op:
         log("nothing to replay in %s" % path)
